@@ -128,7 +128,42 @@ def obsOf (ws : List String) (obs : String) : List Obs :=
       | _ => (0, 0)))]
   | _ => vs
 
+/-- `a/b` -/
+def parseFrac (s : String) : Nat × Nat :=
+  match s.splitOn "/" with
+  | [a, b] => (nat! a, nat! b)
+  | _ => (0, 0)
+
+def realObs (ws : List String) (obs : String) : Option RObs :=
+  let ows := words obs
+  match ws with
+  | "rbatch" :: i :: _ =>
+    let v := (field ows "v").getD "HANG"
+    let (fin, n) := parseFrac ((field ows "fin").getD "0/0")
+    some (.batch (nat! i) (if v == "HANG" then none else some (parseVerdict v)) fin n)
+  | ["rstop"] => some (.stop (obs == "ok"))
+  | ["rpeer"] => some (.stop false)
+  | ["rfinal"] =>
+    let inner := ((obs.replace "n=[" "").replace "]" "")
+    some (.final ((words inner).map (fun w => match w.splitOn ":" with
+      | [b, c] => (nat! b, nat! c)
+      | _ => (0, 0))))
+  | _ => none
+
+/-- cases of kind `real`: the real worker over scripted peers; oracle only -/
+def runReal (c : CaseIn) : Array String := Id.run do
+  let mut out : Array String := #[]
+  for (ln, line) in c.lines do
+    let (op, obs) := splitObs line
+    match realObs (words op) obs with
+    | none => out := out.push s!"DIFF C12 case {c.num} line {ln}: unparsable op <{op}>"
+    | some ob =>
+      for (shape, msg) in realStep ob do
+        out := out.push s!"ORACLE-FAIL C12 case {c.num} line {ln}: shape={shape} {msg} (at: {op} => {obs})"
+  return out
+
 def runCase : CaseFn := fun c => Id.run do
+  if c.header.headD "" == "real" then return runReal c
   let mut out : Array String := #[]
   let mut st : State := init
   let mut o : OSt := {}
